@@ -511,6 +511,18 @@ func c06Files(seed int64, thorough bool) []func() (c06File, bool) {
 			return c06File{f, "boundary/" + f.Truth.Format + "/" + f.Truth.ICCState, false}, true
 		})
 	}
+	// profiles and preceding structures of several MiB (built when the case runs, not when it is listed)
+	for i := 0; i < 9; i++ {
+		i := i
+		add(func(r *core.RNG) (c06File, bool) {
+			fs := bigFiles(seed)
+			if i >= len(fs) {
+				return c06File{}, false
+			}
+			f := fs[i]
+			return c06File{f, "big/" + f.Truth.Format + "/" + f.Truth.ICCState, false}, true
+		})
+	}
 	// no profile at all
 	for i := 0; i < 60; i++ {
 		i := i
